@@ -22,12 +22,20 @@ type failingProxy struct {
 	mu    sync.Mutex
 	kind  string
 	calls []time.Time
+	seq   []string // if set: the kind of the n-th call (the last entry repeats)
 }
 
 func (p *failingProxy) RoundTrip(r *http.Request) (*http.Response, error) {
 	p.mu.Lock()
 	p.calls = append(p.calls, time.Now())
 	kind := p.kind
+	if len(p.seq) > 0 {
+		k := len(p.calls) - 1
+		if k >= len(p.seq) {
+			k = len(p.seq) - 1
+		}
+		kind = p.seq[k]
+	}
 	p.mu.Unlock()
 	mk := func(code int, body string) (*http.Response, error) {
 		return &http.Response{StatusCode: code, Status: http.StatusText(code), Proto: "HTTP/1.1", ProtoMajor: 1, ProtoMinor: 1, Header: http.Header{},
@@ -50,6 +58,10 @@ func (p *failingProxy) RoundTrip(r *http.Request) (*http.Response, error) {
 		return mk(200, "<html>not json</html>")
 	case "200-object":
 		return mk(200, "{\"a\":1}")
+	case "200-empty-list":
+		return mk(200, "[]")
+	case "200-empty-body":
+		return mk(200, "")
 	}
 	return mk(500, "?")
 }
@@ -108,5 +120,58 @@ func suitePollFail(e *vh.Env) {
 		e.Eval(kind, true)
 		e.Count(kind)
 		e.Sample(map[string]interface{}{"failure": kind, "list_calls_in_500ms": len(calls)})
+	}
+	// "returns to the shortest delay after the first success": k failures, one success (an idle answer: empty list or
+	// empty body), then failures again - the first delay after the success must be the shortest one again
+	for j, succ := range []string{"200-empty-list", "200-empty-body"} {
+		idx := len(kinds) + j
+		if !e.Want(idx) {
+			continue
+		}
+		k := 7 + j // delays 1, 2, 4, ... 2^(k-1) ms before the success
+		var seq []string
+		for i := 0; i < k; i++ {
+			seq = append(seq, "500-body")
+		}
+		seq = append(seq, succ, "500-body", "500-body")
+		fp := &failingProxy{seq: seq}
+		client := &http.Client{Transport: fp}
+		ctx, cancel := context.WithCancel(context.Background())
+		done := make(chan struct{})
+		go func() {
+			pollForNewRequests(ctx, client, http.NotFoundHandler(), "backend-1")
+			close(done)
+		}()
+		ok := false
+		for t := 0; t < 3000; t++ {
+			fp.mu.Lock()
+			n := len(fp.calls)
+			fp.mu.Unlock()
+			if n >= k+4 {
+				ok = true
+				break
+			}
+			time.Sleep(time.Millisecond)
+		}
+		fp.mu.Lock()
+		calls := append([]time.Time(nil), fp.calls...)
+		fp.mu.Unlock()
+		cancel()
+		select {
+		case <-done:
+		case <-time.After(8 * time.Second):
+			e.Fail("C08:poll-loop-does-not-stop", "pollForNewRequests did not return within 8 s of cancellation", idx, nil, nil, nil)
+		}
+		if !ok || len(calls) < k+3 {
+			e.Fail("C08:too-few-polls", fmt.Sprintf("%d failures, a success (%s), then failures: only %d list calls within 3 s", k, succ, len(calls)), idx, nil, len(calls), k+4)
+		} else {
+			// calls[k] is the success; calls[k+1] fails; the gap before calls[k+2] is the first delay after the success
+			gap := calls[k+2].Sub(calls[k+1])
+			if gap > 60*time.Millisecond {
+				e.Fail("C08:no-reset-after-success", fmt.Sprintf("%d failing list calls, one successful idle answer (%s), one more failure: the agent then waited %v before polling again (the shortest delay is about 1 ms; without a reset it would be about %d ms)", k, succ, gap, 1<<uint(k)), idx, nil, gap.String(), "about 1ms")
+			}
+		}
+		e.Eval("reset-after-"+succ, true)
+		e.Count("reset-after-success")
 	}
 }
